@@ -239,10 +239,14 @@ type UpItem struct {
 	Path     [][]byte
 	RawHeader []byte // when set, sent instead of the encoded header
 	Data     []byte
+	CutAfter int // when > 0: deliver only this many bytes of the (remaining) data, then end the connection
 	// filled in by the client
 	Action int
 	Offset int
 }
+
+// ErrCut is returned by FolderUpload when it ended the connection on purpose.
+var ErrCut = fmt.Errorf("connection cut by the client")
 
 // FolderUpload runs the client side of a folder upload and returns the actions the server chose.
 func FolderUpload(srv *fixture.Server, addr string, ref []byte, items []UpItem) ([]UpItem, *refclient.Transfer, error) {
@@ -293,9 +297,19 @@ func FolderUpload(srv *fixture.Server, addr string, ref []byte, items []UpItem) 
 				return items, t, fmt.Errorf("item %d: resume offset %d beyond %d", i, it.Offset, len(it.Data))
 			}
 			fl := UploadStream(name, nil, it.Data[it.Offset:], nil)
+			if it.CutAfter > 0 && it.CutAfter < len(it.Data)-it.Offset {
+				t.Conn.Send(append(rc.U32(len(fl)), fl[:HeaderLen(name, nil)+it.CutAfter]...))
+				t.Conn.CloseWrite()
+				return items, t, ErrCut
+			}
 			t.Conn.Send(append(rc.U32(len(fl)), fl...))
 		case 1:
 			fl := UploadStream(name, nil, it.Data, nil)
+			if it.CutAfter > 0 && it.CutAfter < len(it.Data) {
+				t.Conn.Send(append(rc.U32(len(fl)), fl[:HeaderLen(name, nil)+it.CutAfter]...))
+				t.Conn.CloseWrite()
+				return items, t, ErrCut
+			}
 			t.Conn.Send(append(rc.U32(len(fl)), fl...))
 		default:
 			return items, t, fmt.Errorf("item %d: unknown action %x", i, a)
